@@ -6,6 +6,7 @@ from ..loader import AnalysisError, norm_stmt, walk_own
 from .common import calls_in, ret_deps_by_node
 from .common import check as ob
 from ..canon import Canon
+from ..guards import dominating_tests
 
 EXPLANATION = (
     'Decides: (a) the mass offset computed from the e / p / n entries of the formula is applied on every path that '
@@ -199,12 +200,97 @@ def table_selection(ctx, rep, clause):
        'unconditional scaling', 'the requested abundance is not applied unconditionally', g.loc(), clause)
 
 
+def fixed_isotope_rows(ctx, rep, clause):
+    """element_setup.py: an explicitly labelled isotope (13C, D, ...) is one peak.  In the neutron-offset table it
+    sits at offset 0 (offsets count from the lightest peak of the pattern, which is where the label already is),
+    in the mass table at its own mass -- the two sibling tables must agree on that, otherwise the neutron-offset view
+    is no longer the mass view binned by nominal mass"""
+    program = ctx.program
+    want = {'map_atomic_number_to_comp_neutron_offset': 'offset', 'map_atomic_number_to_comp': 'mass'}
+    n = 0
+    for fname, kind in want.items():
+        f = program.func(f'peptacular.element_setup:{fname}')
+        rows = []
+        for x in walk_own(f.node):
+            if isinstance(x, ast.Assign) and isinstance(x.targets[0], ast.Subscript) and \
+                    isinstance(x.targets[0].slice, ast.Call) and norm_stmt(x.targets[0].slice.func) == 'str' and \
+                    isinstance(x.value, ast.List):
+                rows.append(x)
+        if not rows:
+            raise AnalysisError(f'{fname}: the row of an explicitly labelled isotope (d[str(info)] = [...]) was not found')
+        for r in rows:
+            n += 1
+            v = r.value
+            ok = len(v.elts) == 1 and isinstance(v.elts[0], ast.Tuple) and len(v.elts[0].elts) == 2
+            if ok:
+                a, b = v.elts[0].elts
+                one = isinstance(b, ast.Constant) and b.value == 1
+                if kind == 'offset':
+                    ok = one and isinstance(a, ast.Constant) and a.value == 0 and not isinstance(a.value, bool)
+                else:
+                    ok = one and isinstance(a, ast.Attribute) and a.attr == 'relative_atomic_mass' and \
+                        norm_stmt(a.value) == norm_stmt(r.targets[0].slice.args[0])
+            ob(rep, 'SIB-table', f.fq, f'a labelled isotope is a single peak at ' +
+               ('offset 0' if kind == 'offset' else 'its own mass') + ' with abundance 1', ok, norm_stmt(v),
+               f'the row of a labelled isotope is `{norm_stmt(v)}`: ' +
+               ('in the neutron-offset view a labelled formula would start at a non-zero offset (and the label would '
+                'be counted twice when masses are reported for the offsets)' if kind == 'offset' else
+                'the labelled isotope no longer weighs its own mass'), f.loc(r), clause)
+    rep.floor('SIB-table', 'labelled-isotope rows in the two pattern tables', n, 2)
+
+
+def merge_accumulation(ctx, rep, clause):
+    """merge_isotopic_distributions: every pattern goes through the same round-then-accumulate loop into an
+    initially empty dict (a pattern that seeds the dict skips the rounding and overwrites equal masses)"""
+    program = ctx.program
+    f = program.func(f'{ISO}:merge_isotopic_distributions')
+    c = Canon(f.node)
+    # the dict whose items are returned
+    acc = None
+    for x in walk_own(f.node):
+        if isinstance(x, ast.Return) and x.value is not None:
+            for y in ast.walk(x.value):
+                if isinstance(y, ast.Call) and isinstance(y.func, ast.Attribute) and y.func.attr == 'items' and \
+                        isinstance(y.func.value, ast.Name):
+                    acc = y.func.value.id
+    if acc is None:
+        raise AnalysisError('merge_isotopic_distributions: the accumulated dict was not found')
+    inits = [x for x in walk_own(f.node) if isinstance(x, ast.Assign) and norm_stmt(x.targets[0]) == acc]
+    empty = len(inits) == 1 and ((isinstance(inits[0].value, ast.Dict) and not inits[0].value.keys) or
+                                 norm_stmt(inits[0].value) in ('dict()', 'defaultdict(float)', 'collections.defaultdict(float)'))
+    ob(rep, 'ACC', f.fq, 'the merged pattern starts empty', empty, norm_stmt(inits[0]) if inits else '',
+       f'the accumulator is initialised with `{norm_stmt(inits[0].value) if inits else "?"}`: peaks put there bypass '
+       f'the rounding to `precision` and equal masses overwrite each other instead of adding up', 
+       f.loc(inits[0]) if inits else f.loc(), clause)
+    loops = [x for x in walk_own(f.node) if isinstance(x, ast.For) and
+             any(isinstance(y, (ast.Assign, ast.AugAssign)) and
+                 norm_stmt((y.targets[0] if isinstance(y, ast.Assign) else y.target)).startswith(acc + '[')
+                 for y in ast.walk(x))]
+    outer = [x for x in loops if not any(x is not o and any(z is x for z in ast.walk(o)) for o in loops)]
+    ok = len(outer) == 1 and norm_stmt(outer[0].iter) == 'distributions'
+    ob(rep, 'ACC', f.fq, 'every pattern handed in is accumulated by the same loop', ok,
+       'for <pattern> in distributions', f'the accumulating loop iterates `{norm_stmt(outer[0].iter) if outer else "?"}`'
+       f' ({len(outer)} loop(s)): some pattern is treated differently from the others', f.loc(outer[0]) if outer else
+       f.loc(), clause)
+    stores = [y for x in loops for y in ast.walk(x) if isinstance(y, ast.Assign) and
+              norm_stmt(y.targets[0]).startswith(acc + '[')]
+    for st in stores:
+        guarded = any(isinstance(t, ast.Compare) and isinstance(t.ops[0], (ast.In, ast.NotIn)) and
+                      norm_stmt(t.comparators[0]) == acc for t, _p in
+                      dominating_tests(f.node, st))
+        ob(rep, 'ACC', f.fq, f'plain store `{c.text(st)[:60]}` only creates a missing key', guarded or
+           (acc + '.get(') in norm_stmt(st.value), 'under `mass not in merged` / else of `mass in merged`',
+           'a plain store overwrites the abundance already accumulated at that mass', f.loc(st), clause)
+
+
 def check(ctx, rep):
     rep.explanation = EXPLANATION
     an, program = ctx.analyzer, ctx.program
     particle_offset(ctx, rep, 'C14a')
     estimate_forwarding(ctx, rep, 'C14b')
     table_selection(ctx, rep, 'C14c')
+    fixed_isotope_rows(ctx, rep, 'C14c')
+    merge_accumulation(ctx, rep, 'C14e')
     for fq in (FQ, f'{ISO}:estimate_isotopic_distribution', f'{ISO}:merge_isotopic_distributions'):
         s = an.summaries.get((fq, ()))
         ob(rep, 'EFF-mutates-argument', fq, 'arguments are not written', not s.mutates, 'works on a copy',
